@@ -26,7 +26,7 @@ type c08Engine struct{}
 func (c08Engine) Name() string     { return "vm-sched" }
 func (c08Engine) Property() string { return "C08" }
 
-var c08Kinds = []string{"inc", "map", "arr", "send", "call", "loop", "local", "rwread", "rwwrite", "ptr"}
+var c08Kinds = []string{"inc", "map", "arr", "send", "call", "loop", "local", "rwread", "rwwrite", "ptr", "fld"}
 
 func (c08Engine) Generate(seed uint64, tier string) *simrun.Case {
 	r := sim.NewRand(seed)
@@ -79,6 +79,7 @@ func c08Program(c *simrun.Case) (src, want string) {
 	cnt := [2]int64{}
 	mp := [2]int64{}
 	arr := [2]int64{}
+	fld := [2]int64{}
 	rw := int64(0)
 	sends, sendSum := 0, int64(0)
 	var body [5][]string
@@ -131,6 +132,11 @@ func c08Program(c *simrun.Case) (src, want string) {
 		case "ptr":
 			s = fmt.Sprintf("%s\n\t\taddTo(&c%d, %d)\n\t\t%s", lock, t, v, unlock)
 			cnt[t] += v
+		case "fld":
+			// a field of a struct of a declared type, shared by the closures
+			f := []string{"a", "b"}[t]
+			s = fmt.Sprintf("%s\n\t\ttal.%s = tal.%s + %d\n\t\t%s", lock, f, f, v, unlock)
+			fld[t] += v
 		default:
 			continue
 		}
@@ -140,8 +146,9 @@ func c08Program(c *simrun.Case) (src, want string) {
 	b.WriteString("package main\nimport \"fmt\"\nimport \"sync\"\n\n")
 	b.WriteString("func bump(a int, d int) int {\n\treturn a + d\n}\n\n")
 	b.WriteString("func addTo(p *int, d int) {\n\t*p = *p + d\n}\n\n")
+	b.WriteString("type Tally struct {\n\ta int\n\tb int\n}\n\n")
 	b.WriteString("func main() {\n\tvar mu sync.Mutex\n\tvar rw sync.RWMutex\n\tvar wg sync.WaitGroup\n")
-	b.WriteString("\tc0 := 0\n\tc1 := 0\n\tr0 := 0\n\tm := map[string]int{\"k0\": 0, \"k1\": 0}\n\tarr := []int{0, 0}\n")
+	b.WriteString("\tc0 := 0\n\tc1 := 0\n\tr0 := 0\n\tm := map[string]int{\"k0\": 0, \"k1\": 0}\n\tarr := []int{0, 0}\n\ttal := Tally{a: 0, b: 0}\n")
 	fmt.Fprintf(&b, "\tch := make(chan, %d)\n", c.Knob("chancap", 1))
 	fmt.Fprintf(&b, "\twg.Add(%d)\n", w)
 	for wi := 1; wi <= w; wi++ {
@@ -154,9 +161,9 @@ func c08Program(c *simrun.Case) (src, want string) {
 		b.WriteString(drain + "\twg.Wait()\n")
 	}
 	b.WriteString("\tmu.Lock()\n\trw.Lock()\n")
-	b.WriteString("\tfmt.Println(c0, c1, r0, m[\"k0\"], m[\"k1\"], arr[0], arr[1], s)\n")
+	b.WriteString("\tfmt.Println(c0, c1, r0, m[\"k0\"], m[\"k1\"], arr[0], arr[1], tal.a, tal.b, s)\n")
 	b.WriteString("\trw.Unlock()\n\tmu.Unlock()\n}\n")
-	want = fmt.Sprintf("%d %d %d %d %d %d %d %d\n", cnt[0], cnt[1], rw, mp[0], mp[1], arr[0], arr[1], sendSum)
+	want = fmt.Sprintf("%d %d %d %d %d %d %d %d %d %d\n", cnt[0], cnt[1], rw, mp[0], mp[1], arr[0], arr[1], fld[0], fld[1], sendSum)
 	return b.String(), want
 }
 
